@@ -308,7 +308,8 @@ def c13(ctx):
                                        "parser-reuse", "parser-expect"}, canary_every=997)
     eval_family(ctx, "C09n", {Q: (2, 1), T: (1, 1)}, cats=("outcome", "panic", "oneshot"), mc=False, oneshot=True)
     eval_family(ctx, "C02", {Q: (29, 1), T: (3, 1)}, cats=("outcome", "panic", "oneshot"), mc=False, oneshot=True)
-    C.trace_api(ctx, {"outcome"}, n=400 if quick else 4000)   # every corpus expression is searched twice on one handle
+    # every corpus expression is searched twice on one handle; every text (incl. near-miss texts) also parsed on one reused Parser
+    C.trace_api(ctx, {"outcome", "parser-reuse"}, n=400 if quick else 4000, reuse=True, mutants=400 if quick else 4000)
     ctx.exhaustive = False
 
 
